@@ -5,5 +5,6 @@ CONSTANTS
   MaxB = 6
   MaxH = 14
   MaxJ = 3
+  MaxSet = 0
 INVARIANTS HintPinnedOK
 CHECK_DEADLOCK FALSE
